@@ -104,11 +104,7 @@ impl ProxySettings {
         }
 
         if let Some(host) = url.host_str() {
-            if !self
-                .no_proxy_hosts
-                .iter()
-                .any(|x| host.ends_with(x.to_lowercase().as_str()))
-            {
+            if !self.no_proxy_hosts.iter().any(|x| host_matches(host, x)) {
                 return match url.scheme() {
                     "http" => self.http_proxy.as_ref(),
                     "https" => self.https_proxy.as_ref(),
@@ -117,6 +113,20 @@ impl ProxySettings {
             }
         }
         None
+    }
+}
+
+/// A no-proxy pattern matches the host itself and its subdomains. A host that merely ends with
+/// the same letters (`notreddit.com` for `reddit.com`) does not match, and neither does an empty
+/// pattern.
+fn host_matches(host: &str, pattern: &str) -> bool {
+    let pattern = pattern.to_lowercase();
+    if pattern.is_empty() {
+        return false;
+    }
+    match host.strip_suffix(pattern.as_str()) {
+        Some(rest) => rest.is_empty() || rest.ends_with('.'),
+        None => false,
     }
 }
 
